@@ -99,6 +99,21 @@ def check_determinism(pid, tier, seed):
         import saveload_gen as slg
         simple, uu, _ = slc.gen_saveload("C14", "quick", seed)
         simple = simple[:300 if tier == "quick" else 3000]
+        # recursive serialisation with several not-yet-marked entities reached in the same pass (the order in which
+        # they are marked and written must not depend on hashing)
+        for _ in range(60 if tier == "quick" else 600):
+            n = rng.randint(3, 10)
+            h = [(slg.CREATE, [0]) for _ in range(3 * n)]
+            for i in range(n):
+                h.append((slg.INSERT, [i, 0, 2, n + i]))              # root i -> leaf n+i
+                if rng.random() < 0.5:
+                    h.append((slg.INSERT, [n + i, 1, 2, 2 * n + i]))  # leaf -> second-level leaf
+                h.append((slg.INSERT, [i, 2, 1, rng.randint(-50, 50)]))
+            for i in rng.sample(range(n), n):
+                h.append((slg.MARK, [i]))
+            h.append((slg.SERREC, [rng.choice(slg.FORMATS)]))
+            h.append((slg.SERREC, [rng.choice(slg.FORMATS)]))
+            simple.append(h)
         r1 = slc.run_saveload(simple, False)
         # second process: other order, every history twice in a row (other worlds earlier in the same process)
         order = list(range(len(simple)))
